@@ -514,7 +514,10 @@ class Program:
             raise Broken(f"anchor missing: function `{name}` is not in the analysed program")
         if len(ds) > 1:
             raise Broken(f"anchor ambiguous: `{name}` matches {len(ds)} bodies")
-        return self.bodies[ds[0].id]
+        b = self.bodies[ds[0].id]
+        from . import anchors
+        anchors.apply(self, b)
+        return b
 
     def has_fn(self, name):
         return any(d.id in self.bodies for d in self.by_name.get(name, []))
